@@ -82,13 +82,21 @@ impl List {
         empty: bool,
         compact: bool,
     ) -> Result<Self, Error> {
-        // Compute array size
-        let array_size = if compact { coupon_count } else { 1 << lg_arr };
+        // The list always has 2^lg_arr slots; a compact image stores only the occupied ones.
+        // (Sizing the list by the coupon count would make it full right away, so that the
+        // next update is dropped.)
+        let capacity = 1usize << lg_arr;
+        if coupon_count >= capacity {
+            return Err(Error::deserial(format!(
+                "LIST mode: {coupon_count} coupons do not fit a list of {capacity} slots"
+            )));
+        }
+        let stored = if compact { coupon_count } else { capacity };
 
         // Read coupons
-        let mut coupons = vec![0u32; array_size];
+        let mut coupons = vec![0u32; capacity];
         if !empty && coupon_count > 0 {
-            for (i, coupon) in coupons.iter_mut().enumerate() {
+            for (i, coupon) in coupons.iter_mut().take(stored).enumerate() {
                 *coupon = cursor.read_u32_le().map_err(|_| {
                     Error::insufficient_data(format!(
                         "expect {coupon_count} coupons, failed at index {i}"
